@@ -50,8 +50,11 @@ theorem Rel.restate {σ} {c c2 : Conn σ} {p : PSt} (h : Rel c p)
     exact ⟨h.1, h.2.1, h.2.2.1, h.2.2.2.restate e3 e5 e6 e7 e8 e9 e10 hlow hlow2 hnew⟩
   | req q =>
     simp only [Rel, e1, e2, e5, e6, e7, hrou, hss] at h ⊢
-    obtain ⟨a1, a2, a3, hi, d1, d2, d3, d4, d5, d6⟩ := h
-    exact ⟨a1, a2, a3, hi.restate e3 e5 e6 e7 e8 e9 e10 hlow hlow2 hnew, d1, d2, d3, d4, d5, fun _ => Or.inl hlow2⟩
+    obtain ⟨a1, a2, a3, hi, d1, d2, d3, d4, d5, d6, d7⟩ := h
+    have h23 : decide (c.state.toNat = 23) = false := decide_eq_false (by omega)
+    have h23' : decide (c2.state.toNat = 23) = false := decide_eq_false (by omega)
+    exact ⟨a1, a2, a3, hi.restate e3 e5 e6 e7 e8 e9 e10 hlow hlow2 hnew, d1, d2, d3, d4, d5, fun _ => Or.inl hlow2,
+      by rw [h23']; rw [h23] at d7; exact d7⟩
 
 theorem closeConn_frame {σ} (c : Conn σ) (code : Nat) :
     (closeConn c code).1.started = c.started ∧ (closeConn c code).1.cleaned = c.cleaned := by
